@@ -38,6 +38,8 @@ type FuncSpec struct {
 	Verify    bool // verify body
 	NilStrict bool
 	HoldsAtEntry []string
+	Escapes   []string // parameters whose pointee is retained by the callee (it may write it in later calls)
+	ModEscaped bool    // the callee may write every object that escaped earlier
 	Known     map[string]Clause // label -> region in which the clause is a recorded finding
 	Replay    ast.Expr          // call to a replay builder (verif-tagged Go function) with entry-state arguments
 	ReplayText string
@@ -67,6 +69,7 @@ type Specs struct {
 	Ifaces map[string]*FuncSpec // pkg.Iface.Method
 	Order  []string
 	Assumes []string
+	GhostVars map[string]string
 }
 
 var propTagRe = regexp.MustCompile(`\[((?:C\d+)(?:\s*,\s*C\d+)*)\]\s*$`)
@@ -218,7 +221,7 @@ func mkClause(text string) (Clause, error) {
 
 // LoadSpecs reads //@ blocks from every zz_verif*.go file under the repo and *.spec under extern dir.
 func LoadSpecs(repo string, externDir string) (*Specs, error) {
-	sp := &Specs{Funcs: map[string]*FuncSpec{}, Loops: map[string]*LoopSpec{}, Types: map[string]*TypeSpec{}, Ifaces: map[string]*FuncSpec{}}
+	sp := &Specs{Funcs: map[string]*FuncSpec{}, Loops: map[string]*LoopSpec{}, Types: map[string]*TypeSpec{}, Ifaces: map[string]*FuncSpec{}, GhostVars: map[string]string{}}
 	var files []string
 	for _, pk := range repoPkgs {
 		m, _ := filepath.Glob(filepath.Join(repo, pk, "zz_verif*.go"))
@@ -314,6 +317,11 @@ func (sp *Specs) parseFile(path string, extern bool) error {
 					curF.ModAll = true
 					continue
 				}
+				if r == "escaped" {
+					curF.ModAll = false
+					curF.ModEscaped = true
+					continue
+				}
 				curF.ModAll = false
 				for _, part := range splitTop(r, ",") {
 					c, err := mkClause(strings.TrimSpace(part))
@@ -361,6 +369,17 @@ func (sp *Specs) parseFile(path string, extern bool) error {
 			if curF != nil {
 				curF.Pure = true
 			}
+		case "escapes":
+			if curF == nil {
+				return fail(fmt.Errorf("escapes outside func block"))
+			}
+			curF.Escapes = append(curF.Escapes, strings.Fields(strings.ReplaceAll(rest, ",", " "))...)
+		case "ghostvar":
+			fs := strings.Fields(rest)
+			if len(fs) != 2 {
+				return fail(fmt.Errorf("ghostvar $name int|bool"))
+			}
+			sp.GhostVars[strings.TrimPrefix(fs[0], "$")] = fs[1]
 		case "known":
 			if curF == nil {
 				return fail(fmt.Errorf("known outside func block"))
